@@ -135,3 +135,15 @@ func TwinB() reflect.Type {
 type VM map[string]*Tok // map kind (uncomparable): the token is m["t"]
 type VF func() *Tok     // func kind (uncomparable): the token is what the function returns
 type VA [1]*Tok         // array kind
+
+// VE is a plain struct that itself embeds two structs (the token is in the first one): embedded ahead of a
+// struct that carries dig.In it makes the search for the embedded dig.In visit a level with several entries.
+type VEa struct {
+	T *Tok
+	_ struct{}
+}
+type VEb struct{ X int }
+type VE struct {
+	VEa
+	VEb
+}
